@@ -601,3 +601,94 @@ def rule_mem_hsem(ctx, R):
 def T_eval(x, vals):
     import rules.a64hsem as me
     return me.term_eval(x.canon(), vals)
+
+
+# ---------------------------------------------------------------------------------------------------------------------------
+# CBRANCH
+
+def rule_cbranch(ctx, R):
+    if STRICT_FAMILY:
+        R.note('rule_cbranch skipped: RXVERIF_STRICT_FAMILY=1')
+        return
+    F, hs = jit.handlers(ctx, 'a64')
+    cls = 'randomx::JitCompilerA64'
+    R.rule('A64-CBR-HSEM', 'the words h_CBRANCH emits add the immediate of specification 5.4.3 (bit mod.cond + 8 set, the bit below cleared, sign-extended) to the register, test it against 0xFF << (mod.cond + 8) '
+           '(logical immediate decoded) with `tst`, and branch with `b.eq` to exactly the code offset recorded for the register in reg_changed_offset; for every dst, every mod.cond, boundary immediates, '
+           'several (position, target) pairs, literal table free and exhausted', min_instances=500)
+    R.saw(config='K2', unit='src/jit_compiler_a64.cpp')
+    FI = astq.Facts(ctx, 'K0')
+    co, cm = FI.const('randomx::ConditionOffset'), FI.const('randomx::ConditionMask')
+    h = hs['CBRANCH'].f
+    R.saw(fn=h['q'])
+    where = '%s:%d' % (h['file'], h['line'])
+    g = F.glob('randomx::IntRegMap')
+    regmap = [val(e) for e in g['init']['e']]
+    ip = h['params'][0]
+    keys = set()
+    for x in astq.walk(h['body']):
+        if x['k'] == 'Idx' and 'reg_changed_offset' in show(x['b']):
+            keys.add(show(x))
+    n = 0
+    for d in range(8):
+        for cond in range(16):
+            for imm in (0, 0xFFFFFFFF, 0x80000000, 0x7FFFFFFF, 0x00FF00FF, 0x00000FFF, 0x00FFF000):
+                for pos0, tgt in ((0x1000, 0x800), (0x9000, 0x300), (0x2000, 0x1FFC)):
+                    if (d + cond) % 3 and pos0 != 0x1000:
+                        continue
+                    for nlit in ((0, 64) if (d + cond) % 4 == 0 else (64,)):
+                        n += 1
+                        shift = cond + co
+                        want_imm = ((imm | (1 << shift)) & ~(1 << (shift - 1))) & 0xffffffff
+                        want_s = want_imm | (0xffffffff00000000 if want_imm >> 31 else 0)
+                        m = Machine(regmap)
+                        ex = Exec(F, cls, None, {}, nlit)
+                        pname = ip['name']
+                        env0 = {'%s.dst' % pname: KB.const(8, d), '%s.src' % pname: KB.const(8, (d + 1) % 8), '%s.mod' % pname: KB.const(8, cond << 4)}
+                        for k_ in keys:
+                            env0[k_] = KB.const(32, tgt)
+                        ov = {'randomx::Instruction::getImm32': KB.const(32, imm), 'randomx::Instruction::getModCond': KB.const(32, cond)}
+                        ex.run_with(h, [None, KB.const(32, pos0)], env0, ov)
+                        words = []
+                        for w, wh in ex.words:
+                            v = w.value()
+                            if v is None:
+                                raise AnalysisBroken('A64-CBR-HSEM: a word emitted at %s is not constant (%s)' % (wh, w.hexpat()))
+                            words.append((v, wh))
+                        bad = None
+                        tr = []
+                        tst = br = None
+                        for idx, (v, wh) in enumerate(words):
+                            if (v & 0xFF80001F) == 0xF200001F:                       # ANDS xzr, xn, #imm  (tst)
+                                tst = (idx, (v >> 5) & 31, decode_bitmask((v >> 22) & 1, (v >> 10) & 63, (v >> 16) & 63))
+                                tr.append('tst x%d, #%s' % (tst[1], hex(tst[2]) if tst[2] is not None else '?'))
+                            elif (v & 0xFF000010) == 0x54000000:                      # b.cond
+                                off = (v >> 5) & 0x7ffff
+                                if off >> 18:
+                                    off -= 1 << 19
+                                br = (idx, v & 15, off * 4)
+                                tr.append('b.%s %+d' % ({0: 'eq', 1: 'ne'}.get(v & 15, 'cc%d' % (v & 15)), off * 4))
+                            else:
+                                m.literals = {k_: (x_.value() if x_.value() is not None else 0) for k_, x_ in ex.literals.items()}
+                                tr.append(m.step(v, wh))
+                        r_ = atom(('reg', d))
+                        if tst is None or br is None or br[0] != len(words) - 1 or tst[0] != br[0] - 1:
+                            bad = 'expected add ... ; tst ; b.eq, found `%s`' % ' ; '.join(tr)
+                        elif m.get(regmap[d]) != add(r_, const(want_s)):
+                            bad = 'r%d = %s, the specification adds %#x (`%s`)' % (d, term_show(m.get(regmap[d]), None), want_s, ' ; '.join(tr))
+                        elif tst[1] != regmap[d] or tst[2] != (cm << shift):
+                            bad = '`%s`: the specification tests r%d (x%d) against %#x' % (tr[tst[0]], d, regmap[d], cm << shift)
+                        elif br[1] != 0:
+                            bad = 'the branch condition is not "eq"'
+                        elif pos0 + 4 * br[0] + br[2] != tgt:
+                            bad = 'the branch at %#x lands at %#x, the recorded target is %#x' % (pos0 + 4 * br[0], pos0 + 4 * br[0] + br[2], tgt)
+                        else:
+                            for i in range(8):
+                                if i != d and m.get(regmap[i]) != atom(('reg', i)):
+                                    bad = 'r%d changed' % i
+                        inst = 'CBRANCH dst=r%d mod.cond=%d imm32=%#x at %#x -> %#x literals=%d' % (d, cond, imm, pos0, tgt, nlit)
+                        if bad:
+                            R.violation(inst, where, expected='add ; tst ; b.eq target', found=bad)
+                        else:
+                            R.ok(inst, where)
+    if n < 500:
+        raise AnalysisBroken('A64-CBR-HSEM: only %d cases' % n)
